@@ -594,8 +594,9 @@ def _snapshot(cur, case):
     snap = {}
     for sch in ("S1", "S2"):
         dbs = []
+        _, cn = _names(case)
         for i in range(len(case["tables"])):
-            cur.execute(f"select * from DB1.{sch}.{tn(i)}")
+            cur.execute(f"select {', '.join(cn(j) for j in range(case['tables'][i][0]))} from DB1.{sch}.{tn(i)}")
             dbs.append([[SRANK.get(v, v) if isinstance(v, str) else v for v in r] for r in cur.fetchall()])
         snap[sch] = dbs
     return snap
@@ -633,12 +634,34 @@ def _real_history(conn, conn_b, case):
     bcur.execute("use schema s2")
     n = len(sqls)
     obs, dbs = [None] * n, [None] * n
-    if case.get("mode", "cursor") == "cursor":
+    if case.get("mode", "cursor") in ("cursor", "tx"):
+        tx = case.get("mode") == "tx"
+        if tx:
+            cur.execute("begin")
         for i, sql in enumerate(sqls):
             bcur.execute(f"select count(*) from {tn(0)}")
             obs[i] = _observe(cur, sql)
-            dbs[i] = _snapshot(conn.cursor(), case)
-        return {"obs": obs, "dbs": dbs}
+            dbs[i] = _snapshot(conn.cursor(), case)       # through the session's own connection: sees its uncommitted rows
+        res = {"obs": obs, "dbs": dbs}
+        if tx:
+            # the session's transaction: whatever COMMIT answers must be what another session sees afterwards
+            if case.get("conflict") is not None:
+                try:   # the other session changes the shape of a table the transaction may have written to (DuckDB notices at commit)
+                    bcur.execute(f"alter table DB1.S1.{tn(case['conflict'])} add column zz int")
+                except Exception as e:
+                    res["alter_error"] = f"{type(e).__name__}: {str(e)[:80]}"
+            try:
+                cur.execute("commit")
+                rows = cur.fetchall()
+                res["commit"] = "ok" if rows == [("Statement executed successfully.",)] else f"odd result {rows}"
+            except Exception as e:
+                res["commit"] = f"raised {type(e).__module__}.{type(e).__name__}"
+                try:
+                    cur.execute("rollback")
+                except Exception:
+                    pass
+            res["final"] = _snapshot(conn_b.cursor(), case)
+        return res
     rejected = case["rejected"]
     i = 0
     while i < n:
@@ -735,7 +758,7 @@ def _check_history(chk, case, real, reply):
     spec, impl = json.loads(reply["spec"]), json.loads(reply["impl"])
     mode, nop = case.get("mode", "cursor"), bool(case.get("nop"))
     sqls = [_rename(case, q) for q in case["sqls"]]
-    rcase = {"kind": "hist", "tables": case["tables"], "stmts": case["stmts"], "sqls": case["sqls"], "mode": mode, "nop": nop, "strings": bool(case.get("strings"))}
+    rcase = {"kind": "hist", "tables": case["tables"], "stmts": case["stmts"], "sqls": case["sqls"], "mode": mode, "nop": nop, "strings": bool(case.get("strings")), "conflict": case.get("conflict")}
     rcase.update({k: case[k] for k in ("known_key", "known_obs") if k in case})
     how = ("VARCHAR columns, values shown as ranks of " + str([SPOOL[k] for k in sorted(SPOOL)]) + "; " if case.get("strings") else "") + ("conn.execute_string" if mode == "script" else "cursor.execute") + (f", instance with nop_regexes={NOP_REGEXES}" if nop else "")
     init = [_canon_rows(rows) for _, rows in case["tables"]]
@@ -782,7 +805,18 @@ def _check_history(chk, case, real, reply):
             chk.violation(f"after statement #{i} `{sql}` of {sqls} ({how}) in the session whose schema is DB1.S1: the other session's table DB1.S2.T{j} changed "
                           f"from {init[j]} to {odb[j]}", rcase, broken="C04_frame / C04_history_frame (touch nothing else; correspondence)")
             break
-    chk.case(("hist", case["tok"], mode, nop), nontrivial=nontrivial)
+    else:
+        if mode == "tx" and "commit" in real:
+            final = [_canon_rows(t) for t in real["final"]["S1"]]
+            committed = [_canon_rows(t) for t in (spec["dbs"][-1] if spec["dbs"] else [r for _, r in case["tables"]])]
+            chk.count("tx-commit:" + ("ok" if real["commit"] == "ok" else "refused") + (":other-session-altered-a-table" if case.get("conflict") is not None else ""))
+            want = committed if real["commit"] == "ok" else init
+            if real["commit"].startswith("odd") or final != want:
+                chk.violation(f"transaction BEGIN; {sqls}; " + (f"[other session: alter table T{case['conflict']} add column zz int]; " if case.get("conflict") is not None else "")
+                              + f"COMMIT -> {real['commit']}: another session then sees {final}, but " +
+                              ("a COMMIT answered with success must leave what the statements reported: " if real["commit"] == "ok" else "a refused COMMIT must leave the tables as they were: ") + f"{want}",
+                              rcase, broken="C04_history (what the status rows reported is what is stored once COMMIT succeeded; correspondence)")
+    chk.case(("hist", case["tok"], mode, nop, case.get("conflict")), nontrivial=nontrivial)
 
 
 def _check_ddl(chk, case, real, reply):
@@ -828,7 +862,7 @@ def _lines(items):
     return out
 
 
-def _mk_hist(rnd, tables, stmts, mode="cursor", nop=False, strings=False):
+def _mk_hist(rnd, tables, stmts, mode="cursor", nop=False, strings=False, conflict=None):
     if strings:
         stmts = no_arith(stmts)
     _STRINGS[0] = strings
@@ -836,7 +870,7 @@ def _mk_hist(rnd, tables, stmts, mode="cursor", nop=False, strings=False):
         sqls = [sstmt(rnd, s) for s in stmts]
     finally:
         _STRINGS[0] = False
-    return {"tables": tables, "stmts": stmts, "sqls": sqls, "tok": tcase(tables, stmts), "mode": mode, "nop": nop, "strings": strings}
+    return {"tables": tables, "stmts": stmts, "sqls": sqls, "tok": tcase(tables, stmts), "mode": mode, "nop": nop, "strings": strings, "conflict": conflict}
 
 
 def _cases(chk):
@@ -848,9 +882,12 @@ def _cases(chk):
         items.append(("hist", _mk_hist(rnd, t, s, "script", nop=rnd.random() < 0.5)))
     for t, s in string_sweep():
         items.append(("hist", _mk_hist(rnd, t, s, "cursor", strings=True)))
-    nh = 800 if chk.tier == "quick" else 10000
+    nh = 650 if chk.tier == "quick" else 10000
     for _ in range(nh):
-        items.append(("hist", _mk_hist(rnd, *ghistory(rnd), mode=rnd.choice(["cursor", "script"]), nop=rnd.random() < 0.3, strings=rnd.random() < 0.35)))
+        tables, stmts = ghistory(rnd)
+        mode = rnd.choice(["cursor", "script", "cursor", "script", "tx"])
+        conflict = rnd.randrange(len(tables)) if mode == "tx" and rnd.random() < 0.6 else None
+        items.append(("hist", _mk_hist(rnd, tables, stmts, mode=mode, nop=rnd.random() < 0.3, strings=rnd.random() < 0.35, conflict=conflict)))
     items += [("ddl", c) for c in ddl_cases(chk)]
     items += [("bound", c) for c in bound_cases(chk)]
     return items
@@ -859,7 +896,7 @@ def _cases(chk):
 def _from_replay(case):
     kind = case["kind"]
     if kind == "hist":
-        c = {"tables": case["tables"], "stmts": case["stmts"], "sqls": case["sqls"], "mode": case.get("mode", "cursor"), "nop": bool(case.get("nop")), "strings": bool(case.get("strings"))}
+        c = {"tables": case["tables"], "stmts": case["stmts"], "sqls": case["sqls"], "mode": case.get("mode", "cursor"), "nop": bool(case.get("nop")), "strings": bool(case.get("strings")), "conflict": case.get("conflict")}
         c.update({k: case[k] for k in ("known_key", "known_obs") if k in case})
         c["tok"] = tcase(c["tables"], c["stmts"])
     else:
